@@ -610,6 +610,50 @@ def _check_init(run, repo, world, rcs):
     run.ob("R-INIT", CMD + "Response.__init__#type-guard", okg,
            "TypeError must be raised for anything that is neither None nor a "
            "BackwardFrame", where(mod, fn))
+    # ... decided per path, on the argument itself: every path that does not
+    # raise has established `arg is None` or isinstance(arg, BackwardFrame)
+    # about the value the caller passed (a re-bound parameter is another
+    # value) and stores exactly that value
+    from .. import paths as _paths
+    from ..normal import normalise as _norm
+    try:
+        ps = _paths.summaries(_norm(fn, world, base.mod, base,
+                                    aliases=False))
+    except _paths.Unsupported as e:
+        raise AnalysisError("Response.__init__ is not loop-free: %s" % e)
+    n_ok = 0
+    for p_ in ps:
+        if p_.kind == "raise":
+            continue
+        n_ok += 1
+        est = False
+        for (t_, b_) in p_.conds:
+            txt = unparse(t_)
+            if (txt == "%s is None" % p and b_) or (
+                    txt == "%s is not None" % p and not b_):
+                est = True
+            if b_ and isinstance(t_, ast.Call) and unparse(
+                    t_.func) == "isinstance" and len(
+                        t_.args) == 2 and unparse(t_.args[0]) == p:
+                ks = t_.args[1].elts if isinstance(
+                    t_.args[1], ast.Tuple) else [t_.args[1]]
+                rs = [world.resolve_class(base.mod, k_) for k_ in ks]
+                if rs and all(k_ is not None and any(
+                        getattr(m_, "qname", None) ==
+                        "dali.frame.BackwardFrame" for m_ in k_.mro)
+                        for k_ in rs):
+                    est = True
+        stored = [unparse(v) for (t, v) in p_.effects if t == "self._value"]
+        run.ob("R-INIT", CMD + "Response.__init__#accepting-path",
+               est and stored[-1:] == [p],
+               "a path of Response.__init__ accepts its argument under %s "
+               "and stores `%s`: an object that is neither None nor a "
+               "BackwardFrame gets through, or something other than the "
+               "argument is kept" % (
+                   [(unparse(t_, 60), b_) for (t_, b_) in p_.conds],
+                   stored[-1] if stored else None), where(mod, fn))
+    if not n_ok:
+        raise AnalysisError("Response.__init__ has no accepting path")
     for rc in rcs:
         r2 = rc.lookup("__init__")
         run.ob("R-INIT", rc.qname + "#uses-base-init",
